@@ -34,7 +34,7 @@ FAULTS = ["no-key", "empty-key", "refused", "400-json", "400-plain", "401-json",
 COND_PIECES = ["must mention", "no \"quotes\"", "back\\slash", "tab\there", "é日本", "\U0001F600", "{json}", "a<b", "100%", "x=y", "semi;", "it's"]
 CONTENT_PIECES = ["alpha", "say \"hi\"", "c:\\path\\file", "tab\there", "naïve café", "日本語", "\U0001F468‍\U0001F469‍\U0001F467", "{\"k\": [1, 2]}",
                   "id: 42", "$x = 'y'", "<b>bold</b>", "a & b", "100%", "line", "\\n literal", "null", "end"]
-PATTERNS = [None, None, None, r"(?P<value>\d+)", r"id: (\w+)", r"^nomatch$", r"(?s)alpha.*end"]
+PATTERNS = [None, None, None, r"(?P<value>\d+)", r"id: (\w+)", r"^nomatch$", r"(?s)alpha.*end", r"(?s).*", r"(?P<value>\s+\S+\s+)", r"\S+[ \t]+"]
 ERR_JSON = json.dumps({"error": {"message": "scripted failure", "type": "invalid_request_error", "param": None, "code": "bad"}})
 
 
